@@ -220,6 +220,14 @@ def handle (st : St) (args : List String) (impl : String) : St × Verdict :=
       let l := (sortNat (inputPosToRewind n S (n.heightOf hb))).eraseDups
       (st, cmpModel ("[" ++ ",".intercalate (l.map toString) ++ "]") impl)
     | _, _, _ => (st, .diff "txhashset-model failed to follow the head")
+  | ["tail", s] =>
+    -- after a compaction: `remove_historical_blocks` deleted every block below the body tail (on
+    -- every fork) with its spent-index record; the tail itself is taken from the implementation
+    match st.impls.find? (·.1 == s), getNode st s, idOf impl with
+    | some (_, cur, some S), some n, some t =>
+      let th := n.heightOf t
+      (setImpl st s (cur, some { S with spentIdx := S.spentIdx.filter (fun e => !(decide (n.heightOf e.1 < th))) }), .ok)
+    | _, _, _ => (st, .unknown)
   | ["spentdrop", s, b] =>
     -- the harness deleted the spent-index record of a block behind the node's back
     match st.impls.find? (·.1 == s), idOf b with
